@@ -126,14 +126,13 @@ def build_calc_net(feats=()):
     # measurements for the state-estimation kind of C08: exact values of a power flow of this very net; a bus-bus switch with
     # impedance between two extra buses gives estimate(fuse_buses_with_bb_switch=...) something to change temporarily
     try:
-        pp.runpp(net)
+        import copy as _copy
+        ref = _copy.deepcopy(net)          # never calculate on the template itself: its tables are the "before" state of C08
+        pp.runpp(ref)
         for bus in net.bus.index:
-            pp.create_measurement(net, "v", "bus", float(net.res_bus.vm_pu.at[bus]), 0.002, bus)
-            pp.create_measurement(net, "p", "bus", float(net.res_bus.p_mw.at[bus]), 0.01, bus)
-            pp.create_measurement(net, "q", "bus", float(net.res_bus.q_mvar.at[bus]), 0.01, bus)
-        for t in [k for k in list(net.keys()) if k.startswith("res_")]:
-            net[t] = net[t].iloc[0:0]
-        net["_ppc"] = None
+            pp.create_measurement(net, "v", "bus", float(ref.res_bus.vm_pu.at[bus]), 0.002, bus)
+            pp.create_measurement(net, "p", "bus", float(ref.res_bus.p_mw.at[bus]), 0.01, bus)
+            pp.create_measurement(net, "q", "bus", float(ref.res_bus.q_mvar.at[bus]), 0.01, bus)
     except Exception:  # noqa
         pass
     if "taptable" in feats:
